@@ -1340,6 +1340,11 @@ class Interp(object):
                                or dn.startswith("lib.logger.") or dn.endswith("log.timer")):
             return None
         # super() needs the defining class of the current function
+        if isinstance(fn_node, ast.Name) and fn_node.id == "super" and len(node.args) == 2:
+            owner = self.eval(node.args[0], env, mod)
+            self_v = self.eval(node.args[1], env, mod)
+            start = self_v.cls if isinstance(self_v, Obj) else self_v
+            return SuperV(self_v, owner, start)
         if isinstance(fn_node, ast.Name) and fn_node.id == "super" and not node.args:
             self_v = self._lookup_opt(env, "__self__")
             owner = self._lookup_opt(env, "__owner__")
